@@ -8,6 +8,9 @@ import CoapVerif.Generated.ThreadCfg
 -- DRIVER-OPS: lkseq => Coap.Driver.Lock.seqStep
 -- DRIVER-OPS: lksched => Coap.Driver.Lock.schedStep
 -- DRIVER-OPS: lkcfg => Coap.Driver.Lock.cfgStep
+-- DRIVER-OPS: lkapi => Coap.Driver.Lock.apiStep
+-- DRIVER-OPS: lkcb => Coap.Driver.Lock.cbStep
+-- DRIVER-OPS: lksmoke => Coap.Driver.Lock.smokeStep
 namespace Coap.Driver.Lock
 open Coap Coap.Lock
 
@@ -68,8 +71,15 @@ def schedStep (args : List String) : String :=
     match rcOf r, progs.mapM id, sched.mapM id with
     | some rc, some progs, some sched =>
       if progs.all (wn []) && sched.all (· < progs.length) then
-        "M " ++ " ".intercalate ((runSched rc sched (progsOf progs) G.init).map showObs)
-      else "M ill-nested"
+        let r := runSched rc sched (progsOf progs) G.init
+        let n := progs.length
+        let total := (progs.map List.length).foldl (· + ·) 0
+        let fin := match finish rc n ((total + 1) * (n + 1)) 0 r.2.1 r.2.2 with
+          | some g => "fin:" ++ showObs (some g.obs)
+          | none => "fin:stuck"
+        -- S: the property demands that the run completes and leaves the lock in its initial state
+        "M " ++ " ".intercalate (r.1.map showObs ++ [fin]) ++ " | S fin:0,0,0,0,0"
+      else "M ill-nested | S ill-nested"
     | _, _, _ => "bad-op"
   | _ => "bad-op"
 
@@ -82,5 +92,27 @@ def cfgStep (args : List String) : String :=
   | [] => "M " ++ " ".intercalate (Generated.buildCfgs.map cfgLine) ++ " | S " ++
           (if Generated.buildCfgs.all (fun c => !c.advertised || c.compiledIn) then "ok" else "advertised-not-compiled")
   | _ => "bad-op"
+
+/-- `lkapi <file> <func>`: the scan fact as recorded in Generated.apiSites; S: bracketed -/
+def apiStep (args : List String) : String :=
+  match args with
+  | [f, n] =>
+    match Generated.apiSites.find? (fun a => a.file = f && a.name = n) with
+    | some a => "M locks=" ++ b01 a.locks ++ " lkd=" ++ b01 a.callsLkd ++ " unlocks=" ++ b01 a.unlocks ++
+                " | S locks=1 lkd=1 unlocks=1"
+    | none => "M no-such-site | S locks=1 lkd=1 unlocks=1"
+  | _ => "bad-op"
+
+/-- `lkcb <file> <func> <callee> <k>` -/
+def cbStep (args : List String) : String :=
+  match args with
+  | [f, fn, c, k] =>
+    match Generated.callbackSites.find? (fun s => s.file = f && s.func = fn && s.callee = c && toString s.k = k) with
+    | some s => "M wrapped=" ++ b01 s.wrapped ++ " | S wrapped=1"
+    | none => "M no-such-site | S wrapped=1"
+  | _ => "bad-op"
+
+/-- `lksmoke …`: a test, not a model run: the only acceptable outcome is `ok` -/
+def smokeStep (_ : List String) : String := "M ok | S ok"
 
 end Coap.Driver.Lock
